@@ -32,7 +32,7 @@ func main() {
 		defer iwg.Wait()
 		n := r.Pick(500, 8000)
 		st := sh.Batch(r, "C10", "hist", n, 8, func(c *ev.Case, i int) sh.Config {
-			cfg := sh.Config{NoUpstream: i%2 == 1, Steps: 8 + c.Rand.Intn(30), Windows: []int{sh.WCurrent, sh.WCurrent, sh.WForever, sh.WCurrent, sh.WPast}, KIDs: []string{"touch", "text", "touchless", "inagent"}, Preload: i%2 == 0, Forward: true, DirectLock: i%11 == 0, LockOps: i%5 == 2, // a fifth of the histories lock and unlock too: raw requests are relayed whatever the lock state
+			cfg := sh.Config{NoUpstream: i%2 == 1, Steps: 8 + c.Rand.Intn(30), Windows: []int{sh.WCurrent, sh.WCurrent, sh.WForever, sh.WCurrent, sh.WPast}, KIDs: []string{"touch", "text", "touchless", "touch-extreme", "inagent"}, Preload: i%2 == 0, Forward: true, DirectLock: i%11 == 0, LockOps: i%5 == 2, // a fifth of the histories lock and unlock too: raw requests are relayed whatever the lock state
 				Weights: map[string]int{"add-hard-cert": 14, "sign": 12, "forward": 6, "direct-add": 8, "remove": 6, "nil-keys": 1, "signers": 9}}
 			if i%4 == 0 {
 				cfg.FragmentPct = 50
